@@ -258,7 +258,9 @@ func runC02(w *World, tr *Trace) {
 						takeImage(f, "end of op")
 					}
 				}
-			} else if len(images) < maxImages && (r.Float64() < pImage*2 || i == n-1) {
+			} else if (len(images) < maxImages && (r.Float64() < pImage*2 || i == n-1)) || (op.K == "maint" && len(images) < maxImages+4) {
+				// (always after forced maintenance: vacuum clears arena bytes in place, which only a crash right
+				// after it - before the next flush - can show)
 				takeImage(OpFault{Ev: 1 << 20, When: "before"}, "end of op")
 			}
 			if tr == nil {
